@@ -1,6 +1,7 @@
 package harness
 
 import (
+	"errors"
 	"encoding/json"
 	"flag"
 	"fmt"
@@ -63,6 +64,10 @@ func TestReplay(t *testing.T) {
 		msg, failed, err := fn(rec.Case)
 		endCase()
 		switch {
+		case errors.Is(err, errConfigRejected):
+			// The stored configuration is no longer accepted by
+			// NewParser: the history cannot happen any more.
+			fmt.Printf("REPLAY %s PASS (%v)\n", f, err)
 		case err != nil:
 			fmt.Printf("REPLAY %s ERROR %v\n", f, err)
 			t.Fail()
@@ -152,7 +157,7 @@ func (pp parserProp) replayer() replayFn {
 		}
 		x, err := replayParserCase(c, pp.setup)
 		if err != nil {
-			return "", false, fmt.Errorf("configuration rejected: %v", err)
+			return "", false, fmt.Errorf("%w: %v", errConfigRejected, err)
 		}
 		if pp.after != nil && !x.dead {
 			pp.after(x)
